@@ -486,4 +486,135 @@ RULES = [
     ("C13.CLIENT", "quick", rule_client),
     ("C13.CARRY", "quick", rule_carry),
     ("C13.TICKET-ID", "quick", borrowed("c05", "rule_ticket_identity", "C05.TICKET-ID", "C13.TICKET-ID")),
+    # a cached session is resumed only while it is younger than maxAge: expiry and eviction of the ring
+    ("C13.EXPIRY", "quick", borrowed("c18", "rule_ring", "C18.RING", "C13.EXPIRY")),
+    # invalidation reaches the cached entry because the cache holds the connection's own object
+    ("C13.CACHE-IDENTITY", "quick", borrowed("c18", "rule_identity", "C18.IDENTITY", "C13.CACHE-IDENTITY")),
 ]
+
+
+# ----------------------------------------------------------------- ETM-SOURCE (pending-state typestate)
+def rule_pending_source(ctx):
+    """ETM-SOURCE: what is recorded about the connection-to-be (encrypt-then-MAC in the session and in
+    the ticket) is read from a pending connection state that is still pending.  changeReadState /
+    changeWriteState install the pending state and replace it by a fresh one, so an accessor that reads
+    `_pending<S>State` must not run after `change<S>State` in the same handshake flight.  Decided on the
+    call graph: in every function that calculates the pending states, no path leads from the calculation
+    through a (transitive) change of side S to a (transitive) read of pending side S."""
+    R = "C13.ETM-SOURCE"
+    rl = ctx.index.cls("recordlayer:RecordLayer")
+    # accessors: RecordLayer methods that only hand out a field of a pending state
+    acc = {}
+    for name, m in rl.methods.items():
+        if name.startswith("calc") or name.startswith("change") or name == "__init__" or name.startswith("_calc"):
+            continue
+        sides = set()
+        for n in own_nodes(m.node):
+            if isinstance(n, ast.Attribute) and isinstance(n.ctx, ast.Load):
+                c = attr_chain(n) or ""
+                if c.startswith("self._pendingReadState."):
+                    sides.add("Read")
+                elif c.startswith("self._pendingWriteState."):
+                    sides.add("Write")
+        stores = any(isinstance(n, ast.Attribute) and isinstance(n.ctx, ast.Store)
+                     and (attr_chain(n) or "").startswith("self._pending") for n in own_nodes(m.node))
+        if sides and not stores:
+            acc[name] = sides
+    if not acc:
+        raise AnalysisError("%s: no accessor of a pending connection state found in RecordLayer" % R)
+    fams = [f for f in ctx.index.all_functions() if f.cls is not None and f.cls.name in ("TLSConnection", "TLSRecordLayer")]
+    by_name = {}
+    for f in fams:
+        by_name.setdefault(f.name, []).append(f)
+    CHANGE = {"Read": {"changeReadState", "_changeReadState"}, "Write": {"changeWriteState", "_changeWriteState"}}
+
+    def callees(node):
+        e = node.expr if node.expr is not None else node.ast
+        out = set()
+        if getattr(node, "call", None) is not None:
+            out.add(call_name(node.call))
+        if e is not None:
+            out |= {call_name(c) for c in calls_in(e)}
+        return {x for x in out if x}
+    memo = {}
+
+    def may(fname, kind, side, depth=0):
+        """function `fname` may (transitively) change / read pending side `side`"""
+        k = (fname, kind, side)
+        if k in memo:
+            return memo[k]
+        memo[k] = False
+        res = False
+        for f in by_name.get(fname, []):
+            for c in calls_in(f.node):
+                nm = call_name(c)
+                if not nm:
+                    continue
+                if kind == "change" and nm in CHANGE[side]:
+                    res = True
+                elif kind == "access" and side in acc.get(nm, ()):
+                    res = True
+                elif nm in by_name and depth < 6 and may(nm, kind, side, depth + 1):
+                    res = True
+        memo[k] = res
+        return res
+
+    def node_may(node, kind, side):
+        for nm in callees(node):
+            if kind == "change" and nm in CHANGE[side]:
+                return True
+            if kind == "access" and side in acc.get(nm, ()):
+                return True
+            if nm in by_name and may(nm, kind, side):
+                return True
+        return False
+    n_flows = 0
+
+    def check_fn(f, starts_from_calc, side, seen):
+        nonlocal n_flows
+        if f.qname in seen:
+            return
+        seen.add(f.qname)
+        g = ctx.an.cfg(f)
+        nodes = [n for n in g.nodes if n.kind in ("stmt", "consume", "noreturn", "test", "loop", "return")]
+        if starts_from_calc:
+            calc = [n for n in nodes if "_calcPendingStates" in callees(n) or "calcPendingStates" in callees(n)]
+            if not calc:
+                return
+            scope = set()
+            for c in calc:
+                scope |= set(g.reach(g.normal_succ(c)))
+        else:
+            scope = {n.id for n in g.nodes}
+        cs = [n for n in nodes if n.id in scope and node_may(n, "change", side)]
+        as_ = [n for n in nodes if n.id in scope and node_may(n, "access", side)]
+        n_flows += 1
+        for c in cs:
+            after = g.reach(g.normal_succ(c))
+            for a in as_:
+                if a is c:
+                    continue
+                if a.id in after:
+                    ctx.fail(R, f.qname, "pending %s state read after change%sState" % (side.lower(), side),
+                             "the pending %s state is read (line %d, through %s) after change%sState already "
+                             "installed and reset it (line %d): the value recorded for the session / ticket is "
+                             "that of a fresh ConnectionState, not what was negotiated" % (
+                                 side.lower(), a.line, sorted(callees(a)), side, c.line), f.loc(a.ast) if a.ast is not None else f.loc())
+        for n in cs:
+            if n in as_:
+                for nm in callees(n):
+                    for f2 in by_name.get(nm, []):
+                        check_fn(f2, False, side, seen)
+    sides = set().union(*acc.values())
+    for side in sorted(sides):
+        for f in fams:
+            if any(call_name(c) in ("_calcPendingStates", "calcPendingStates") for c in calls_in(f.node)) \
+                    and f.name not in ("_calcPendingStates",):
+                check_fn(f, True, side, set())
+    if n_flows < 3:
+        raise AnalysisError("%s: only %d flows with a pending-state calculation examined" % (R, n_flows))
+    ctx.ok(R, "no read of a pending connection state after its change*State (accessors: %s; %d flows)" % (
+        ", ".join("%s:%s" % (k, "/".join(sorted(v))) for k, v in sorted(acc.items())), n_flows), "tlslite/recordlayer.py")
+
+
+RULES.append(("C13.ETM-SOURCE", "quick", rule_pending_source))
